@@ -20,6 +20,8 @@ package analysis
 // the same for a check result held by value (as the language server stores it)
 //@ spec crOk(cr) = cr.emptiedAccount != nil && cr.declaredVars != nil && cr.unusedVars != nil && cr.varResolution != nil && cr.fnCallResolution != nil && forallstr(k, has(cr.declaredVars, k) ==> declOk(cr.declaredVars[k])) && forallref(f, has(cr.fnCallResolution, f) ==> typeis(cr.fnCallResolution[f], StatementFnCallResolution) || typeis(cr.fnCallResolution[f], VarOriginFnCallResolution)) && forallref(v, has(cr.varResolution, v) ==> declOk(cr.varResolution[v]))
 //@ spec exprOk(e) = e == nil || ewf(e)
+// position lies in the closed range (what Range.Contains computes)
+//@ spec rangeHas(r, p) = (p.Line > r.Start.Line || (p.Line == r.Start.Line && p.Character >= r.Start.Character)) && (r.End.Line > p.Line || (r.End.Line == p.Line && r.End.Character >= p.Character))
 // the diagnostics appended since the old state / whether one of them is of a given kind
 //@ spec prefixKept(res) = len(res.Diagnostics) >= old(len(res.Diagnostics)) && forall(i, 0, old(len(res.Diagnostics)), res.Diagnostics[i] == old(res.Diagnostics[i]))
 //@ spec grewBy(res, n) = len(res.Diagnostics) == old(len(res.Diagnostics)) + n && forall(i, 0, old(len(res.Diagnostics)), res.Diagnostics[i] == old(res.Diagnostics[i]))
@@ -47,6 +49,9 @@ package analysis
 //@   ensures [use-marks-used] {C16} typeis(lit, *Variable) ==> !has(res.unusedVars, as(lit, *Variable).Name)
 //@   ensures [declarations-untouched] {C16} forallstr(k, has(res.declaredVars, k) == old(has(res.declaredVars, k)) && (has(res.declaredVars, k) ==> res.declaredVars[k] == old(res.declaredVars[k])))
 //@   ensures [reports-are-appended] {C16} prefixKept(res)
+//@   ensures [literal-of-its-type-silent] {C16} (typeis(lit, *parser.AccountLiteral) && requiredType == TypeAccount) || (typeis(lit, *parser.AssetLiteral) && requiredType == TypeAsset) || (typeis(lit, *parser.NumberLiteral) && requiredType == TypeNumber) || (typeis(lit, *parser.StringLiteral) && requiredType == TypeString) || (typeis(lit, *parser.RatioLiteral) && requiredType == TypePortion) || lit == nil ==> grewBy(res, 0)
+//@   ensures [declared-variable-of-its-type-silent] {C16} typeis(lit, *parser.Variable) && old(has(res.declaredVars, as(lit, *parser.Variable).Name)) && old(res.declaredVars[as(lit, *parser.Variable).Name].Type.Name) == requiredType ==> grewBy(res, 0)
+//@   ensures [any-accepts-literals] {C16} requiredType == TypeAny && (typeis(lit, *parser.AccountLiteral) || typeis(lit, *parser.AssetLiteral) || typeis(lit, *parser.NumberLiteral) || typeis(lit, *parser.StringLiteral) || typeis(lit, *parser.RatioLiteral)) ==> grewBy(res, 0)
 //@   modifies res.Diagnostics, entries(res.varResolution), entries(res.unusedVars)
 
 //@ func (*CheckResult).checkSentValue
@@ -153,6 +158,8 @@ package analysis
 //@     invariant [state] resOk(res)
 //@   loop 3
 //@     invariant [state] resOk(res)
+//@     invariant [unused-reported-at-its-declaration] {C16} len(res.Diagnostics) >= atloop(len(res.Diagnostics)) && forall(i, atloop(len(res.Diagnostics)), len(res.Diagnostics), typeis(res.Diagnostics[i].Kind, *UnusedVar) && has(res.unusedVars, as(res.Diagnostics[i].Kind, *UnusedVar).Name) && res.Diagnostics[i].Range == res.unusedVars[as(res.Diagnostics[i].Kind, *UnusedVar).Name])
+//@     invariant [earlier-reports-kept] {C16} forall(i, 0, atloop(len(res.Diagnostics)), res.Diagnostics[i] == atloop(res.Diagnostics[i]))
 
 //@ func newCheckResult
 //@   ensures [state] result.emptiedAccount != nil && result.declaredVars != nil && result.unusedVars != nil && result.varResolution != nil && result.fnCallResolution != nil && len(result.Diagnostics) == 0 && fresh(ref(result.emptiedAccount)) && fresh(ref(result.declaredVars)) && fresh(ref(result.unusedVars)) && fresh(ref(result.varResolution)) && fresh(ref(result.fnCallResolution)) && result.Program == program && forallstr(k, !has(result.declaredVars, k)) && forallref(f, !has(result.fnCallResolution, f)) && forallref(v, !has(result.varResolution, v))
@@ -180,6 +187,9 @@ package analysis
 //@ func hoverOnExpression
 //@   requires [node] exprOk(lit)
 //@   ensures [node-or-nil] absent(result) ==> result == nil
+//@   ensures [variable-under-cursor] {C19} typeis(lit, *parser.Variable) ==> (result != nil) == rangeHas(as(lit, *parser.Variable).Range, position) && (result != nil ==> typeis(result, *VariableHover) && as(result, *VariableHover).Node == as(lit, *parser.Variable) && as(result, *VariableHover).Range == as(lit, *parser.Variable).Range)
+//@   ensures [nothing-outside] {C19} lit == nil ==> result == nil
+//@   ensures [leaf-literals-give-nothing] {C19} typeis(lit, *parser.AccountLiteral) || typeis(lit, *parser.AssetLiteral) || typeis(lit, *parser.NumberLiteral) || typeis(lit, *parser.StringLiteral) || typeis(lit, *parser.RatioLiteral) ==> result == nil
 //@   modifies nothing
 
 //@ func hoverOnSource
@@ -234,6 +244,7 @@ package analysis
 //@ func GotoDefinition
 //@   requires [program] ewf(program)
 //@   requires [resolution] crOk(checkResult)
+//@   ensures [fresh-answer] {C19} result != nil ==> fresh(result)
 //@   modifies nothing
 
 //@ func (*CheckResult).GetSymbols
